@@ -18,6 +18,7 @@ import QuinnModel.Drv.Conn
 import QuinnModel.Drv.Udp
 import QuinnModel.Drv.Sbuf
 import QuinnModel.Drv.Asm
+import QuinnModel.Drv.CidEcho
 /-
 Native model driver: one request per line on stdin, one canonical response line on stdout.
 `case <id>` resets every component state (and is echoed).
@@ -42,6 +43,7 @@ structure St where
   cidq : CidQueue.Handler := Drv.cidqInit
   sbuf : SendBuffer.SendBuffer := {}
   asm : Assembler.Asm := {}
+  cidecho : Drv.CidEchoDrv.St := {}
 
 def step (s : St) (line : String) : St × String :=
   match words line with
@@ -57,6 +59,7 @@ def step (s : St) (line : String) : St × String :=
   | "dedup" :: r => let (d, o) := Drv.dedup s.dedup r; ({ s with dedup := d }, o)
   | "sbuf" :: r => let (d, o) := Drv.sbuf s.sbuf r; ({ s with sbuf := d }, o)
   | "asm" :: r => let (d, o) := Drv.asm s.asm r; ({ s with asm := d }, o)
+  | "cidecho" :: r => let (d, o) := Drv.cidecho s.cidecho r; ({ s with cidecho := d }, o)
   | "cidq" :: r => let (d, o) := Drv.cidq s.cidq r; ({ s with cidq := d }, o)
   | "cidstate" :: r => let (d, o) := Drv.cidstate s.cidstate r; ({ s with cidstate := d }, o)
   | "ackfreq" :: r => let (d, o) := Drv.ackfreq s.ackfreq r; ({ s with ackfreq := d }, o)
